@@ -226,6 +226,10 @@ def gen_cases(tier, seed, cdir):
             d = dict(c)
             d['opts'] = o
             cases.append(d)
+    for i, c in enumerate(strgen.random_cases(seed, canary, 'vf_canary_mod', 400 if tier == 'quick' else 12000, per_payload=2 if tier == 'quick' else 3)):
+        d = dict(c)
+        d['opts'] = optsets[i % len(optsets)]
+        cases.append(d)
     for c in strgen.cookie_cases('vf_canary_mod'):
         c['opts'] = options.default()
         cases.append(c)
